@@ -46,7 +46,12 @@ pub fn exec(case: &Value) -> Vec<Value> {
     let max_lines = get_u(case, "max_lines");
     let per_file = (lines.len() + nfiles - 1) / nfiles.max(1);
     let blocks: Vec<Vec<String>> = (0..nfiles).map(|j| lines.iter().skip(j * per_file).take(per_file.max(if lines.is_empty() { 0 } else { 1 })).cloned().collect()).collect();
-    let counted: Vec<String> = blocks.iter().flat_map(|b| b.iter().take(if max_lines > 0 { max_lines } else { usize::MAX }).cloned()).collect();
+    // `dup`: the first file is listed twice (its lines count twice)
+    let dup = get_bool(case, "dup");
+    let mut counted: Vec<String> = blocks.iter().flat_map(|b| b.iter().take(if max_lines > 0 { max_lines } else { usize::MAX }).cloned()).collect();
+    if dup {
+        counted.extend(blocks[0].iter().take(if max_lines > 0 { max_lines } else { usize::MAX }).cloned());
+    }
     // the view of the corpus: whitespace-prefixed words and their counts
     let mut view: BTreeMap<Vec<u8>, usize> = BTreeMap::new();
     for l in &counted {
@@ -95,6 +100,10 @@ pub fn exec(case: &Value) -> Vec<Value> {
         }
         // vocab_size must be a multiple of 64: 320 - 256 - (64 - m) = m merges
         let norm = if with_norm { Some(Normalization::NFKC) } else { None };
+        let mut inps = inps;
+        if dup {
+            inps.insert(1.min(inps.len()), inps[0].clone());
+        }
         let (vocab_size, num_special) = vs.unwrap_or((320, 64 - num_merges.min(64)));
         let r = guard(|| train_bpe(&inps, vocab_size, num_special, &outp, if max_lines > 0 { Some(max_lines) } else { None }, norm, threads, false));
         quiet_panics(); // train_bpe installs its own (printing) panic hook
@@ -142,7 +151,7 @@ pub fn gen(seed: u64, n: usize) -> Vec<Value> {
             json!({"words": words, "freqs": freqs, "num_merges": rng.random_range(0..=24), "per_line": rng.random_range(1..=3),
                    "seed": rng.random::<u32>(), "threads": [th], "norm": rng.random_bool(0.5), "alpha": alpha,
                    "vs": if rng.random_bool(0.1) { json!([[256, 1], [256, 4], [320, 65], [0, 4], [192, 0], [320, 64], [320, 61], [64, 1]][rng.random_range(0..8)]) } else { Value::Null },
-                   "bad_utf8": rng.random_bool(0.15),
+                   "bad_utf8": rng.random_bool(0.15), "dup": rng.random_bool(0.15),
                    "files": rng.random_range(1..=3), "max_lines": max_lines, "blanks": if rng.random_bool(0.3) { rng.random_range(1..=5) } else { 0 }})
         })
         .collect()
